@@ -51,6 +51,7 @@ func (l *Lexer) skipAction() bool {
 			}
 		case '\n':
 			l.line++
+			l.lineOffset = l.scanOffset // keep columns in sync with lines
 		}
 
 		// Scan the next character.
